@@ -237,6 +237,26 @@ def bulk_case(name, rng: random.Random):
     return "\n".join(lines) + "\n"
 
 
+def exhaustive_histories(maxlen, n=2, sync=1, tail=True):
+    """EVERY history up to a length over a small alphabet (two keys, two contents, all operation
+    kinds, restart): the thorough tier runs them all - small-scope completeness next to the random
+    large-scope cases"""
+    import itertools
+    alpha = ["put 6b31 4141", "put 6b31 4242", "put 6b32 4141", "remove 6b31", "remove_range U U", "checkpoint", "close\nopen", "abort 6b31 4141"]
+    out = []
+    for ln in range(1, maxlen + 1):
+        for i, combo in enumerate(itertools.product(alpha, repeat=ln)):
+            lines = [f"case x{ln}_{i}", f"cfg kt=bytes n={n} sync={sync}", "open"] + (["obs"] if tail else [])
+            for o in combo:
+                lines += o.split("\n") + (["obs"] if tail else [])
+            if tail:
+                lines += ["get 6b31", "get 6b32", "iter", "stats", "blobs", "close", "open", "obs", "close", "end"]
+            else:
+                lines += ["close", "end"]
+            out.append("\n".join(lines) + "\n")
+    return out
+
+
 def crash_case(name, rng: random.Random, length=5, big=0.15, kt=None, sync_only=False):
     """Short write-heavy histories for kill-at-k / fail-at-k; no obs lines (they cost nothing in
     the model but the harness dumps after the kill anyway)."""
